@@ -148,8 +148,8 @@ LoadSeq(data, k, acc) ==
 Load(P) == LoadSeq(P.data, 1, [seg |-> 0, ctr |-> 0, mem |-> << >>, labels |-> << >>, over |-> FALSE])
 
 \* the machine when the run loop starts: data image, DS = 0, FLAGS = F000h, CS = FFFFh
-InitRegs == [n \in RegNames |-> IF n = "cs" THEN 65535 ELSE 0]
-InitFlags == 61440
+InitRegs == FreshRegs
+InitFlags == FreshFlags
 BootMachine(image) == [regs |-> InitRegs, flags |-> InitFlags, mem |-> image, bg |-> -1, stack |-> << >>]
 
 (***************************************************************************)
